@@ -320,12 +320,19 @@ func (sc *seqCase) install(x *exec) bool {
 	return true
 }
 
-func runSeq(c *kit.Ctx, i int) {
-	base := fmt.Sprintf("seq/%d", i)
+// runSeq runs one generated upgrade/rollback configuration under all 8x8 program pairs. With
+// real set, the reconciles are those of the production revision.Reconciler (stream rseq);
+// otherwise the establisher is driven directly the way the reconciler drives it.
+func runSeq(c *kit.Ctx, i int, real bool) {
+	stream := "seq"
+	if real {
+		stream = "rseq"
+	}
+	base := fmt.Sprintf("%s/%d", stream, i)
 	if !wantUnder(c, base) {
 		return
 	}
-	sc := genSeq(c.Rng("seq", i), c.Thorough())
+	sc := genSeq(c.Rng(stream, i), c.Thorough())
 	for p1 := range programs {
 		for p2 := range programs {
 			name := fmt.Sprintf("%s/%d-%d", base, p1, p2)
@@ -334,6 +341,9 @@ func runSeq(c *kit.Ctx, i int) {
 			}
 			desc := map[string]any{"sequence": sc, "upgrade_program": programs[p1], "rollback_program": programs[p2]}
 			x := sc.prepare(c, name, desc, uint64(c.Seed)*7_000_003+uint64(i))
+			if real {
+				x.useRealReconciler()
+			}
 			if !sc.install(x) {
 				continue
 			}
@@ -343,8 +353,11 @@ func runSeq(c *kit.Ctx, i int) {
 			if sc.Third >= 0 {
 				s.phase("pk-r2", "pk-r1", programs[sc.Third])
 			}
-			x.count("sequences", 1)
-			c.Eval(fmt.Sprintf("seq|%s|%d|%d", kit.JSON(sc), p1, p2), true)
+			if os.Getenv("VERIF_DEBUG") != "" {
+				fmt.Printf("%s %s\n  %s\n%s", name, kit.JSON(desc), strings.Join(x.ops, "\n  "), x.ownersState())
+			}
+			x.count("sequences_"+stream, 1)
+			c.Eval(fmt.Sprintf("%s|%s|%d|%d", stream, kit.JSON(sc), p1, p2), true)
 			if p1 == 3 && p2 == 0 && sc.Blocker == "" && len(sc.S1) >= 2 && c.WantSample() {
 				c.Sample(map[string]any{"case": desc, "ops": x.ops})
 			}
@@ -472,16 +485,19 @@ func main() {
 		i    int
 	}
 	var jobs []job
-	for i := 0; i < c.N(2500, 40000); i++ {
+	for i := 0; i < c.N(1500, 12000); i++ {
 		jobs = append(jobs, job{"single", i})
 	}
-	for i := 0; i < c.N(30, 450); i++ {
+	for i := 0; i < c.N(14, 110); i++ {
 		jobs = append(jobs, job{"seq", i})
 	}
-	for i := 0; i < c.N(80, 1500); i++ {
+	for i := 0; i < c.N(5, 40); i++ {
+		jobs = append(jobs, job{"rseq", i})
+	}
+	for i := 0; i < c.N(50, 400); i++ {
 		jobs = append(jobs, job{"fault", i})
 	}
-	for i := 0; i < c.N(20, 300); i++ {
+	for i := 0; i < c.N(10, 80); i++ {
 		jobs = append(jobs, job{"faultseq", i})
 	}
 	ch := make(chan job)
@@ -496,7 +512,9 @@ func main() {
 					case "single":
 						runSingle(c, j.i)
 					case "seq":
-						runSeq(c, j.i)
+						runSeq(c, j.i, false)
+					case "rseq":
+						runSeq(c, j.i, true)
 					case "fault":
 						runFaultSingle(c, j.i)
 					case "faultseq":
@@ -529,7 +547,7 @@ func main() {
 
 func weight(k string) int {
 	switch k {
-	case "seq":
+	case "seq", "rseq":
 		return 3
 	case "faultseq":
 		return 2
